@@ -3,7 +3,9 @@ Layer B of C01/C13/C09, part 1: the capability strings of the draw path in their
 
 * `XtermLike ti` — decidable class of terminal descriptions whose draw-path capabilities are, once TPuts has removed
   their padding (`tp_strip`), one of a few standard ECMA-48 forms — or absent where the library tolerates it;
-  `Tcell.Props.C01B.db_layerB` lists the entries of the regenerated database in the class (41 of 49).
+  `Tcell.Props.C01B.db_layerB` lists the entries of the regenerated database in the class (41 of 49);
+  `CornerLike ti` — the sister class of the terminals on which drawCell uses the bottom-right insert-character trick (the same
+  strings `CapsOk`, `ich1` = ICH; `db_cornerLike`: the other four ECMA-48 entries beterm, cygwin, sun, sun-color).
 * closed forms of the TParm expansions of the parameterised strings of the class, for ALL parameter values
   (`parm_cup`, `parm_cup_pad`, `parm_setaf256`, `parm_setab256`, `parm_setfgbg256`, `parm_setafBasic`, `parm_setafAdd`,
   `parm_setafExt`, `parm_setafColon`, …, `parm_rgb…`, `parm_ul…`),
@@ -514,7 +516,9 @@ theorem parm_setfgbgColon (f b : Nat) :
 def attrOffForms : List Bytes :=
   [[27,40,66,27,91,109], [27,91,109,15], [27,91,109,27,40,66], [27,91,48,109,15], [27,91,109], [27,91,48,109],
    [27,91,48,59,49,48,109], [27,91,48,59,49,48,109,27,40,66], [27,91,109,15,27,91,34,113]]
-def clearForms : List Bytes := [[27,91,72,27,91,50,74], [27,91,72,27,91,74]]
+/-- `clear`: cursor home + erase display — or FF (form feed) on the terminals that clear on it (the Sun console) -/
+def clearFF : Bytes := [12]
+def clearForms : List Bytes := [[27,91,72,27,91,50,74], [27,91,72,27,91,74], clearFF]
 /-- `cnorm`: DECTCEM on, alone or with a blink / `34` / linux-console cursor setting -/
 def showForms : List Bytes :=
   [[27,91,63,50,53,104], [27,91,63,49,50,108,27,91,63,50,53,104], [27,91,51,52,104,27,91,63,50,53,104],
@@ -527,7 +531,11 @@ def resetStd : Bytes := [27,91,51,57,59,52,57,109]
 /-- `op` of aixterm (`CSI 32 m CSI 40 m`) and pcansi (`CSI 37;40 m`): not a reset to the default colours — they SET colours -/
 def opAix : Bytes := [27,91,51,50,109,27,91,52,48,109]
 def opPc : Bytes := [27,91,51,55,59,52,48,109]
-def opForms : List Bytes := [resetStd, opAix, opPc]
+/-- `op` spelled as a full SGR reset (`CSI m`: beterm, `CSI 0 m`: sun-color): sendFgBg writes `op` right after `sgr0`, where
+    resetting every attribute changes nothing -/
+def opSgr : Bytes := [27,91,109]
+def opSgr0 : Bytes := [27,91,48,109]
+def opForms : List Bytes := [resetStd, opAix, opPc, opSgr, opSgr0]
 def ulStyleStd (s : Nat) : Bytes := [27,91,52,58,48 + s,109]
 def ulResetStd : Bytes := [27,91,53,57,109]
 def decscusr (n : Nat) : Bytes := [27,91,48 + n,32,113]
@@ -561,9 +569,9 @@ def tiCapsOk (ti : Terminfo) : Bool :=
   -- cursor visibility: both strings in a standard form, or neither
   ((showForms.contains (stripPadding ti.showCursor) && hideForms.contains (stripPadding ti.hideCursor)) ||
    (ti.showCursor == [] && ti.hideCursor == [])) &&
-  stripPadding ti.underline == sgr1 4 && optSent ti.bold (sgr1 1) && optSent ti.reverse (sgr1 7) &&
+  optSent ti.underline (sgr1 4) && optSent ti.bold (sgr1 1) && optSent ti.reverse (sgr1 7) &&
   optSent ti.blink (sgr1 5) && optSent ti.dim (sgr1 2) && optSent ti.italic (sgr1 3) && optSent ti.strikeThrough (sgr1 9) &&
-  -- colours: one of the palette families with `op` = `CSI 39;49 m` (or one of the two colour-setting `op`s), or none at all
+  -- colours: one of the palette families with `op` = `CSI 39;49 m` (or a full SGR reset, or one of the two colour-setting `op`s), or none at all
   (((palKind ti).isSome && opForms.contains ti.resetFgBg) || monoOk ti) &&
   optForm ti.setFgRGB setfRGB && optForm ti.setBgRGB setbRGB && optForm ti.setFgBgRGB setfbRGB &&
   -- coherence of the direct-colour strings (all three or none; tcell sets them together, terminfo.go addTrueColor)
@@ -587,7 +595,7 @@ def dOk (d : Derived) : Bool :=
 
 /-- **the class of terminal descriptions Layer B is proved for**: every capability string the draw path uses is, once
     TPuts has removed its padding, one of the standard ECMA-48 / xterm forms listed above — or absent where the library
-    tolerates that (no cursor-visibility strings, no bold / reverse / blink / dim / italic / strike-through, no colours, no
+    tolerates that (no cursor-visibility strings, no underline / bold / reverse / blink / dim / italic / strike-through, no colours, no
     hyperlink, underline-style, underline-colour, cursor-style strings).  (The name is historical: the class started as the
     xterm family and now holds every ECMA-48 entry of the database except the four that use the bottom-right insert-character
     trick, see `Props.C01B.db_layerB`.) -/
@@ -595,6 +603,23 @@ def XtermLike (ti : Terminfo) : Bool := tiOk ti && dOk (derive ti)
 
 /-- the class without the corner-trick condition: all that the per-command effects `CapsFx` depend on -/
 def CapsOk (ti : Terminfo) : Bool := tiCapsOk ti && dOk (derive ti)
+
+/-- `ich1` = ICH with the default count: `CSI @` -/
+def ichStd : Bytes := [27,91,64]
+
+/-- drawCell paints the bottom-right cell with the insert-character trick on this terminal (tscreen.go:815) -/
+def usesCornerTrick (ti : Terminfo) : Bool := ti.autoMargin && ti.disableAutoMargin.isEmpty && !ti.insertChar.isEmpty
+
+/-- **the class of corner-trick terminal descriptions Layer B is proved for**: the strings of the class (`CapsOk`), the draw path
+    uses the bottom-right insert-character trick, and the insert-character string is (padding removed) ICH -/
+def CornerLike (ti : Terminfo) : Bool := CapsOk ti && usesCornerTrick ti && (stripPadding ti.insertChar == ichStd)
+
+theorem capsOk_of_cl {ti : Terminfo} (h : CornerLike ti = true) : CapsOk ti = true := by
+  simp only [CornerLike, Bool.and_eq_true] at h; exact h.1.1
+theorem cl_corner {ti : Terminfo} (h : CornerLike ti = true) : usesCornerTrick ti = true := by
+  simp only [CornerLike, Bool.and_eq_true] at h; exact h.1.2
+theorem cl_ich {ti : Terminfo} (h : CornerLike ti = true) : stripPadding ti.insertChar = [27, 91, 64] := by
+  simp only [CornerLike, Bool.and_eq_true, beq_iff_eq] at h; exact h.2
 
 theorem capsOk_of_xl {ti : Terminfo} (h : XtermLike ti = true) : CapsOk ti = true := by
   simp only [XtermLike, tiOk, CapsOk, Bool.and_eq_true] at h ⊢; exact ⟨h.1.1, h.2⟩
